@@ -13,6 +13,7 @@ CONSTANTS
   MaxFail = 0
   MaxReq = 0
   MaxLook = 0
+  MaxLag = 1
   SharedTx = FALSE
   Boots = TRUE
   Profile = "attest"
